@@ -515,7 +515,17 @@ func genTemplate(rng *rand.Rand) (segs []string, method string) {
 }
 
 func genPath(rng *rand.Rand) pathT {
-	switch weighted(rng, "template", 41, "grammar", 24, "escape", 19, "multienc", 10, "fixed", 6) {
+	switch weighted(rng, "template", 39, "grammar", 22, "escape", 18, "multienc", 10, "short", 5, "fixed", 6) {
+	case "short":
+		// /linkip and /ddns with 0-3 further segments, empty ones included
+		segs := []string{pick(rng, []string{"ddns", "ddns", "linkip"})}
+		for k := rng.IntN(4); k > 0; k-- {
+			segs = append(segs, pick(rng, []string{genID(rng), genID(rng), "", "status"}))
+		}
+		if len(segs) > 3 {
+			segs = segs[:3+rng.IntN(2)]
+		}
+		return pathT{join(segs), pick(rng, []string{"POST", "GET"}), "short"}
 	case "multienc":
 		// one of the four documented shapes with a multiply encoded dot
 		// segment / slash in every placeholder position in turn
@@ -1059,6 +1069,10 @@ func fixedCases(ipsFor func(idx int) []string) []caseT {
 		{"GET", "/linkip/%25252e%25252e/admin/status", nil},
 		{"POST", "/ddns/dev1234/0123456789/%252e%252e", nil},
 	}
+	for _, pth := range []string{"/ddns/dev1234/0123456789", "/ddns/dev1234/", "/ddns//", "/ddns/dev1234", "/ddns", "/ddns/",
+		"/linkip/dev1234", "/linkip/", "/linkip//", "/linkip"} {
+		list = append(list, fc{"POST", pth, nil}, fc{"GET", pth, nil})
+	}
 	cors := func(m string) []hdr {
 		return []hdr{{"Origin", "https://adguard-dns.io"}, {"Access-Control-Request-Method", m}}
 	}
@@ -1398,6 +1412,15 @@ type outcome struct {
 	Late     []backendRec   // recorded after the last response was complete
 	ProxyErr []string
 	Timeout  bool
+	// Retry[k] is set when request k got no response at all and was sent once
+	// more, alone, on a fresh connection, header block first.
+	Retry map[int]*retryT
+}
+
+type retryT struct {
+	Resp           respT        `json:"response"`
+	ClosedOnHeader bool         `json:"connection_closed_after_header_block_only"`
+	Recs           []backendRec `json:"backend_received,omitempty"`
 }
 
 func runCase(f *fixture, fi int, c caseT) outcome {
@@ -1477,12 +1500,77 @@ func runCase(f *fixture, fi int, c caseT) outcome {
 		}
 		return n
 	}())
+	// A connection that is closed without any response: once more on a fresh
+	// connection to exclude transport noise.  The header block goes first and
+	// the body only if nothing comes back, so that a reset caused by an unread
+	// request body cannot hide the response.
+	for k := range o.Resps {
+		if o.Resps[k].Status != 0 || o.Resps[k].Err == "" || o.Timeout || c.Reqs[k].Lenient != "" {
+			continue
+		}
+		if o.Retry == nil {
+			o.Retry = map[int]*retryT{}
+		}
+		o.Retry[k] = retryOnce(f, la, c.LocalIP, &c.Reqs[k])
+	}
 	if e1 := f.ec.count(); e1 > e0 {
 		f.ec.mu.Lock()
 		o.ProxyErr = append([]string(nil), f.ec.errs[e0:e1]...)
 		f.ec.mu.Unlock()
 	}
 	return o
+}
+
+func retryOnce(f *fixture, la *net.TCPAddr, localIP string, q *reqT) *retryT {
+	rt := &retryT{}
+	nb := f.taken()
+	defer func() { rt.Recs = f.since(nb) }()
+	d := net.Dialer{LocalAddr: la, Timeout: 20 * time.Second}
+	conn, err := d.Dial("tcp", f.dialAddr(localIP))
+	if err != nil {
+		rt.Resp.Err = "dial: " + err.Error()
+		return rt
+	}
+	defer func() {
+		if tc, ok := conn.(*net.TCPConn); ok {
+			_ = tc.SetLinger(0)
+		}
+		_ = conn.Close()
+	}()
+	w := q.wire()
+	head := w[:len(w)-len(q.Body)]
+	_, _ = conn.Write(head)
+	br := bufio.NewReader(conn)
+	bodySent := len(q.Body) == 0
+	_ = conn.SetReadDeadline(time.Now().Add(2 * time.Second))
+	if _, perr := br.Peek(1); perr != nil {
+		if ne, ok := perr.(net.Error); ok && ne.Timeout() {
+			// the handler waits for the body (a forwarded request)
+			_, _ = conn.Write([]byte(q.Body))
+			bodySent = true
+		} else {
+			rt.Resp.Err = perr.Error()
+			rt.ClosedOnHeader = !bodySent || len(q.Body) == 0
+			return rt
+		}
+	}
+	_ = conn.SetReadDeadline(time.Now().Add(60 * time.Second))
+	resp, rerr := http.ReadResponse(br, &http.Request{Method: q.Method})
+	for rerr == nil && resp.StatusCode >= 100 && resp.StatusCode < 200 && resp.StatusCode != http.StatusSwitchingProtocols {
+		if !bodySent {
+			_, _ = conn.Write([]byte(q.Body))
+			bodySent = true
+		}
+		resp, rerr = http.ReadResponse(br, &http.Request{Method: q.Method})
+	}
+	if rerr != nil {
+		rt.Resp.Err = rerr.Error()
+		return rt
+	}
+	body, _ := io.ReadAll(io.LimitReader(resp.Body, 1<<16))
+	_ = resp.Body.Close()
+	rt.Resp = respT{Status: resp.StatusCode, Header: resp.Header, Body: string(body)}
+	return rt
 }
 
 // ---------------------------------------------------------------------------
@@ -1695,6 +1783,13 @@ func (j *judge) evaluate(o *outcome) {
 				r.Bucket("routing_hint_requests_forwarded", 1)
 			}
 		}
+		if dsegs := segments(decodedPath); (q.Method == "GET" || q.Method == "POST") && len(dsegs) >= 1 && len(dsegs) <= 3 &&
+			(dsegs[0] == "linkip" || dsegs[0] == "ddns") && q.Lenient == "" {
+			r.Bucket("short_api_path_requests_sent", 1)
+			if q.Method == "POST" && dsegs[0] == "ddns" && len(dsegs) == 3 {
+				r.Bucket("post_ddns_three_segments_sent", 1)
+			}
+		}
 		multi := multiEncoded(v.Path)
 		if multi {
 			r.Bucket("multi_encoded_requests_sent", 1)
@@ -1710,6 +1805,22 @@ func (j *judge) evaluate(o *outcome) {
 		answered := k < len(o.Resps) && o.Resps[k].Err == "" && o.Resps[k].Status != 0
 		if !answered {
 			r.Bucket("requests_without_complete_response", 1)
+		}
+		if rt := o.Retry[k]; rt != nil {
+			r.Bucket("no_response_requests_retried_on_fresh_connection", 1)
+			r.Bucket("backend_requests_in_retries", int64(len(rt.Recs)))
+			switch {
+			case rt.Resp.Status != 0:
+				r.Bucket("no_response_then_answered_on_retry", 1)
+			case rt.ClosedOnHeader:
+				// well-formed request (the HTTP server accepts it), twice no
+				// response, the second time with nothing unread on the wire
+				r.Violation("local:connection-closed-without-response:"+v.Expect+":"+v.Reason,
+					"a well-formed request got no response at all: the connection was closed, again on a fresh connection after only the header block was sent (a handler panic recovered by net/http looks like this); it must be answered with 404 or proxied",
+					j.witness(o, k, v, map[string]any{"retry": rt}))
+			default:
+				r.Bucket("no_response_twice_but_not_decidable", 1)
+			}
 		}
 
 		// (1) allow-list: back-end contacted <=> documented shape
@@ -1990,7 +2101,7 @@ func linkLocalAddrs() (addrs []string, undo func()) {
 func TestCheck(t *testing.T) {
 	r := vkit.Start(t, "C19", "exploration")
 	defer r.Finish()
-	r.Rule("88 hand-written requests (documented shapes, the repository test's near misses, plainest hostile forms, root / robots / static paths on every configuration), then seeded cases; each case = 1 (7%: 2 consecutive, keep-alive) raw HTTP/1.x request(s) on a fresh TCP connection from one of several client addresses (127/8; ::1 and 127/8 on a dual-stack bind; a zoned link-local address) to one of 6 service configurations built through websvc.New (minimal | target URL with path | root redirect + error pages + static content + DNS check + non-DoH bind | root redirect + static | dual-stack bind | zoned link-local bind + root redirect + error pages): " +
+	r.Rule("108 hand-written requests (documented shapes, the repository test's near misses, plainest hostile forms, root / robots / static paths on every configuration), then seeded cases; each case = 1 (7%: 2 consecutive, keep-alive) raw HTTP/1.x request(s) on a fresh TCP connection from one of several client addresses (127/8; ::1 and 127/8 on a dual-stack bind; a zoned link-local address) to one of 6 service configurations built through websvc.New (minimal | target URL with path | root redirect + error pages + static content + DNS check + non-DoH bind | root redirect + static | dual-stack bind | zoned link-local bind + root redirect + error pages): " +
 		"method {GET,POST,HEAD,PUT,DELETE,OPTIONS,PATCH,lower/mixed case,garbage tokens,non-tokens} x target " +
 		"(documented template with 0-2 edits | random grammar of 0-6 segments from {id,empty,.,..,%2e%2e,%2e,%2F,status,long,utf-8/escaped,api words,encoded api words,specials,domain,double/triple-encoded dots and slashes} | a documented shape with a double/triple percent-encoded dot segment or slash (lower/upper/mixed hex) in each placeholder position | " +
 		"prefix-escape patterns | fixed paths; optional query; origin/absolute/asterisk/authority/no-slash form) x header set " +
@@ -2115,7 +2226,7 @@ func TestCheck(t *testing.T) {
 				})
 		}
 	}
-	if got, want := r.BucketGet("backend_requests_recorded_in_total"), r.BucketGet("backend_requests")+r.BucketGet("backend_requests_unsolicited"); got != want {
+	if got, want := r.BucketGet("backend_requests_recorded_in_total"), r.BucketGet("backend_requests")+r.BucketGet("backend_requests_unsolicited")+r.BucketGet("backend_requests_in_retries"); got != want {
 		r.Violation("backend:recorded-requests-not-accounted-for",
 			"the number of requests the back-end recorded differs from those claimed by client requests plus the unsolicited ones",
 			map[string]any{"recorded": got, "claimed_plus_unsolicited": want})
@@ -2144,6 +2255,9 @@ func TestCheck(t *testing.T) {
 	r.Require("multi_encoded_requests_sent", int64(n/40))
 	r.Require("multi_encoded_requests_forwarded", int64(n/100))
 	r.Require("distinct_peer_addresses_forwarded", 2)
+	// short API paths (0-3 segments, empty ones) with GET and POST
+	r.Require("short_api_path_requests_sent", int64(n/40))
+	r.Require("post_ddns_three_segments_sent", int64(n/300))
 	// the service's other entry points were exercised while recording
 	r.Require("service_refresh_calls_while_recording", int64(4*workers+n/(2*refreshEvery)))
 	r.Require("service_lifecycles_observed_new_refresh_start_shutdown", int64(workers))
